@@ -266,7 +266,7 @@ def main(argv=None):
             if oid in confirmed or known_match(known, pid, oid):
                 continue
             try:
-                cands = list(wit(r["case"], fl[0]["model"]))[:48]
+                cands = list(wit(r["case"], fl[0]["model"]))[:getattr(c, "witness_cap", 48)]
             except Exception as e:
                 crashes.append("witnesses() of %s: %r" % (c.name, e))
                 cands = []
@@ -610,6 +610,9 @@ def write_evidence(pid, tier, seed, cs, results, obligations, n_ob, n_dis, stand
         "wall_s": round(wall, 2),
         "violations": len(violations),
     }
+    if only:
+        # a debugging run over part of the obligations must not replace the property's evidence
+        return
     d = os.environ.get("VERIF_EVIDENCE_DIR") or os.path.join(VERIF, "evidence")
     os.makedirs(d, exist_ok=True)
     try:
